@@ -50,8 +50,10 @@ class P:
                 # single-token corruption
                 t2 = list(toks)
                 k = rng.randrange(len(t2))
-                m = rng.choice(["del", "dup", "swap", "repl"])
-                if m == "del":
+                m = rng.choice(["del", "dup", "swap", "repl", "trunc", "trunc"])
+                if m == "trunc":
+                    t2 = t2[:max(1, k)]          # the query cut off after any token
+                elif m == "del":
                     del t2[k]
                 elif m == "dup":
                     t2.insert(k, t2[k])
